@@ -52,6 +52,9 @@ type fCmd struct {
 	Date    string `json:"date,omitempty"`
 	Trailer string `json:"trailer,omitempty"` // junk between the last argument and CRLF
 	IdleEnd string `json:"idle_end,omitempty"`
+	// After: raw octets written after the CRLF of the command line (the octets a literal header
+	// in Trailer announces)
+	After string `json:"after,omitempty"`
 }
 
 func quoteIMAP(s string) string {
@@ -106,6 +109,7 @@ func (c fCmd) render() string {
 	if c.Name == "IDLE" {
 		sb.WriteString(c.IdleEnd)
 	}
+	sb.WriteString(c.After)
 	return sb.String()
 }
 
@@ -166,6 +170,66 @@ type streamResult struct {
 	Malformed string
 	Closes    int
 	Log       string
+	// Abandoned: offsets in the sent bytes at which the honest client gave up a command because
+	// the tagged completion arrived instead of the continuation request it was waiting for
+	Abandoned map[int]bool
+}
+
+// ---- independent framing tokenizer ---------------------------------------------------------
+//
+// IMAP framing, written from the protocol and not from the decoder: a command line ends at the
+// first CRLF that is not inside an announced literal, and nothing else ends it (not a bare CR,
+// not a quote, not a parenthesis). A literal is announced by "{n}" or "{n+}" immediately before
+// the CRLF (one SP before the CRLF is tolerated, as the server documents for line ends): the
+// next n octets are payload and the same line goes on after them. After "{n}" the honest client
+// of runStream sends the payload only when the continuation request arrived; the offsets where
+// it gave up instead are passed in. A size that is not a readable number, or that exceeds what
+// was sent, makes everything that follows payload.
+type framedLine struct {
+	Start int
+	Tag   string // bytes up to the first SP ("" when the line has no SP: not a command)
+	Text  string
+}
+
+var reLitAtEnd = regexp.MustCompile(`\{([0-9]+)(\+?)\} ?$`)
+
+func frameStream(sent []byte, abandoned map[int]bool) []framedLine {
+	var out []framedLine
+	i := 0
+	for i < len(sent) {
+		start := i
+		for {
+			j := strings.Index(string(sent[i:]), "\r\n")
+			if j < 0 {
+				i = len(sent)
+				break
+			}
+			seg := string(sent[i : i+j])
+			i += j + 2
+			m := reLitAtEnd.FindStringSubmatch(seg)
+			if m == nil {
+				break
+			}
+			n, err := strconv.ParseUint(m[1], 10, 63)
+			if m[2] == "" && abandoned[i] {
+				break // the command was completed by the server's refusal
+			}
+			if err != nil || uint64(len(sent)-i) < n {
+				i = len(sent) // everything else is payload
+				break
+			}
+			i += int(n)
+		}
+		// a line the stream ends in (or whose announced octets are all that follows) is still a
+		// command that was started: the server may answer it before it gives up
+		text := string(sent[start:i])
+		tag := ""
+		if k := strings.IndexByte(text, ' '); k > 0 {
+			tag = text[:k]
+		}
+		out = append(out, framedLine{Start: start, Tag: tag, Text: text})
+	}
+	return out
 }
 
 // runStream plays the segments as an honest client (waiting for "+" after synchronising
@@ -182,6 +246,7 @@ func runStream(ts *testServer, segs [][]fSeg, cutReset bool) (streamResult, []by
 	_ = greet
 	stub := ts.lastSession()
 	var res streamResult
+	res.Abandoned = map[int]bool{}
 	lines := make(chan string, 100000)
 	var readErr error
 	go func() {
@@ -220,6 +285,9 @@ func runStream(ts *testServer, segs [][]fSeg, cutReset bool) (streamResult, []by
 						continue segloop
 					}
 					if strings.HasPrefix(l, sg.WaitTag+" ") {
+						if !sg.Final {
+							res.Abandoned[len(sent)] = true
+						}
 						break segloop
 					}
 				case <-timeout:
@@ -546,6 +614,43 @@ func runFraming(h *H, cuts bool) {
 				}
 			}
 		}
+		// ---- framing oracle: the independent tokenizer decides which tags may be answered ----
+		hasIdle := false
+		for _, c := range cmds {
+			if strings.EqualFold(c.Name, "IDLE") {
+				hasIdle = true // the line after an accepted IDLE is not a command line
+			}
+		}
+		if cmds != nil && cutAt < 0 && !res.Truncated && !hasIdle {
+			framed := frameStream(stream, res.Abandoned)
+			shape := src
+			pos := 0
+			answered := -1
+			for _, t := range res.Toks {
+				if t.Kind != 0 {
+					continue
+				}
+				k := pos
+				for k < len(framed) && framed[k].Tag != t.Tag {
+					k++
+				}
+				if k == len(framed) {
+					h.Fail("framing:"+shape+":unframed-tag", fmt.Sprintf("tagged response for %q, but no command line delimited by IMAP framing (CRLF outside announced literals) starts with that tag at or after the previously answered line: text inside another command's line or inside announced literal octets was executed", t.Tag), desc)
+					continue
+				}
+				for q := answered + 1; q < k; q++ {
+					if q >= pos {
+						h.Fail("framing:"+shape+":skipped-command", fmt.Sprintf("the command line %q delimited by IMAP framing received no tagged completion although the later command %q was answered on the same connection", framed[q].Text, t.Tag), desc)
+						break
+					}
+				}
+				answered = k
+				pos = k + 1
+			}
+			if len(framed) != len(cmds) {
+				h.Hist("framer_and_generator_count_differ")
+			}
+		}
 		if cuts && baseGoroutines > 0 {
 			// goroutines of finished connections must go away
 			ok := false
@@ -771,6 +876,90 @@ func runFraming(h *H, cuts bool) {
 				one([]byte(cmds[0].render()+cmds[1].render()), cmds, litPlus, true, -1, false, "corpus-append-trailer")
 			}
 		}
+		// ---- framing shapes: what ends a command line and what does not ----
+		runCmds := func(cmds []fCmd, litPlus, preauth bool, src string) {
+			var sb strings.Builder
+			for _, c := range cmds {
+				sb.WriteString(c.render())
+			}
+			one([]byte(sb.String()), cmds, litPlus, preauth, -1, false, src)
+		}
+		login := func() fCmd {
+			return fCmd{Tag: newTag(), Name: "LOGIN", Args: []fArg{{Val: "u", Form: formAtom}, {Val: "p", Form: formAtom}}}
+		}
+		for _, litPlus := range []bool{false, true} {
+			// (1) every command with a string argument: the argument as a literal, then text on
+			// the same line (which is not a new line: nothing in it may be executed)
+			type shape struct {
+				name string
+				nArg int
+			}
+			for _, sh := range []shape{{"LOGIN", 2}, {"SELECT", 1}, {"EXAMINE", 1}, {"CREATE", 1}, {"DELETE", 1}, {"RENAME", 2}, {"SUBSCRIBE", 1}, {"UNSUBSCRIBE", 1}, {"APPEND", 2}} {
+				for litAt := 0; litAt < sh.nArg; litAt++ {
+					for _, form := range []argForm{formSync, formNonSync} {
+						for _, val := range []string{"&&&", "abc", ""} {
+							for _, garbage := range []string{"Z7 DELETE Victim", " Z7 DELETE Victim", "\rZ7 DELETE Victim", ")Z7 DELETE Victim"} {
+								c := fCmd{Tag: newTag(), Name: sh.name}
+								for k := 0; k < sh.nArg; k++ {
+									if k == litAt {
+										c.Args = append(c.Args, fArg{Val: val, Form: form, Announce: len(val)})
+									} else if k < litAt {
+										c.Args = append(c.Args, fArg{Val: "m" + strconv.Itoa(k), Form: formAtom})
+									}
+								}
+								c.Trailer = garbage
+								cmds := []fCmd{c, {Tag: newTag(), Name: "NOOP"}}
+								if sh.name != "LOGIN" {
+									cmds = append([]fCmd{login()}, cmds...)
+								}
+								runCmds(cmds, litPlus, false, "literal-then-garbage")
+							}
+						}
+					}
+				}
+			}
+			// (2) a CR that is not followed by LF, at every position of a line
+			for _, line := range []string{"FROB x Z7 DELETE Victim", "DELETE box Z7 DELETE Victim", "LOGIN u p Z7 DELETE Victim", "NOOP", "CREATE \"a b\" Z7 DELETE Victim"} {
+				tg := newTag()
+				full := tg + " " + line
+				for p := 0; p <= len(full); p++ {
+					if p > 0 && full[p-1] == '\r' {
+						continue // CR LF inside the literal header
+					}
+					mut := full[:p] + "\r" + full[p:]
+					k := strings.IndexByte(mut, ' ')
+					cmds := []fCmd{login(), {Tag: mut[:k], Name: mut[k+1:]}, {Tag: newTag(), Name: "NOOP"}}
+					if strings.HasPrefix(line, "LOGIN") {
+						cmds = cmds[1:]
+					}
+					runCmds(cmds, litPlus, false, "bare-cr")
+				}
+			}
+			// (3) the header of a non-synchronising literal at the end of a discarded line, in the
+			// forms the server itself accepts as a literal header (with and without SP before CRLF):
+			// the announced octets are command-like and must not be executed
+			octets := "Z7 DELETE Victim\r\nZ8 CREATE fromoctets\r\n"
+			for _, nm := range []string{"NOOP", "FROB", "DELETE box", "SELECT (", "CREATE \"a\""} {
+				for _, hdr := range []string{"{%d+}", "{%d+} ", "x{%d+} ", "{0%d+} "} {
+					cmds := []fCmd{login(), {Tag: newTag(), Name: nm, Trailer: " " + fmt.Sprintf(hdr, len(octets)), After: octets}, {Tag: newTag(), Name: "NOOP"}}
+					runCmds(cmds, litPlus, false, "nonsync-header-in-discarded-line")
+				}
+			}
+			// (4) AUTHENTICATE whose initial response is followed by the header of a
+			// non-synchronising literal (AUTHENTICATE is outside the byte-level model)
+			octets = "Z7 LOGIN u p\r\nZ8 CREATE fromoctets\r\n"
+			for _, ir := range []string{"!!!! ", "AHUAcA== ", "= ", "", "AHUAcA=="} {
+				for _, hdr := range []string{"{%d+}", "{%d+} "} {
+					cmds := []fCmd{{Tag: newTag(), Name: "AUTHENTICATE", Trailer: " PLAIN " + ir + fmt.Sprintf(hdr, len(octets)), After: octets}, {Tag: newTag(), Name: "NOOP"}}
+					runCmds(cmds, litPlus, false, "oracle-only-authenticate-ir-literal")
+				}
+			}
+			// (5) CRLF inside a quoted string: by IMAP framing the line ends there
+			for _, nm := range []string{"CREATE", "DELETE", "SELECT"} {
+				cmds := []fCmd{login(), {Tag: newTag(), Name: nm, Trailer: " \"x\r\nZ7 DELETE Victim\r\n\""}, {Tag: newTag(), Name: "NOOP"}}
+				runCmds(cmds, litPlus, false, "quoted-crlf")
+			}
+		}
 		// ---- random structured streams ----
 		names := []string{"INBOX", "inbox", "a", "Foo Bar", "a\"b", "x\r\ny", "&AOk-", "&bad", "Entw&APw-rfe", "(x", "a*b", "NIL", ""}
 		for i := 0; i < h.Pick(1200, 12000); i++ {
@@ -834,6 +1023,12 @@ func runFraming(h *H, cuts bool) {
 					c.Name = []string{"FROB", "XYZZY", "UID NOOPX"}[h.Rng.Intn(3)]
 				default:
 					c.Name = "LOGOUT"
+				}
+				if n := len(c.Args); n > 0 && c.Trailer == "" && c.Name != "APPEND" && (c.Args[n-1].Form == formSync || c.Args[n-1].Form == formNonSync) && h.Rng.Intn(4) == 0 {
+					// text on the same line after a literal: not a new line
+					c.Trailer = []string{"Z7 DELETE Victim", " Z7 CREATE fromtrailer", "\rZ7 DELETE Victim", "\r"}[h.Rng.Intn(4)]
+				} else if c.Trailer == "" && c.Name != "IDLE" && h.Rng.Intn(25) == 0 {
+					c.Trailer = []string{"\rZ7 DELETE Victim", " x\rZ7 CREATE fromtrailer", "\r"}[h.Rng.Intn(3)]
 				}
 				cmds = append(cmds, c)
 			}
